@@ -272,7 +272,9 @@ impl Family for C07Family {
             }
         }
         // the same single faults while a second actor works on the shared store
-        if matches!(c.wrap, Wrap::ArcMutex | Wrap::ArcRwLock) {
+        // (not on the single-slot store: there another actor's registration evicts the record, and the
+        // clauses below would be judging the slot's replace-on-save design, not the ceremony)
+        if matches!(c.wrap, Wrap::ArcMutex | Wrap::ArcRwLock) && c.backend != Backend::Slot {
             for _ in 0..4 {
                 let mut s = base.clone();
                 s.batch = "concurrent".into();
